@@ -652,7 +652,7 @@ func proposeAs(w *World, victim *Replica, who *Actor) *types.Block {
 	if err := tmp.boot(); err != nil {
 		return nil
 	}
-	defer func() { tmp.Alive = false }()
+	defer tmp.Dispose()
 	_ = secstore.NewSecStore
 	_ = crypto.Keccak256
 	_ = time.Second
